@@ -1,13 +1,15 @@
 #!/bin/bash
-# Offline setup: builds the native replay binary (dev + release) against /repo and warms the Kani
-# dependency build of the staged copy. Everything is regenerated by ./check anyway; this only saves time.
+# Offline setup after a fresh restore: builds the native replay/fixture binaries against /repo and warms the
+# Kani dependency build of the staged copy. ./check regenerates all of this from /repo's working tree on every
+# run (cargo fingerprints decide what is rebuilt); this only saves time for the first check.
 set -e
 cd "$(dirname "$0")"
-export CARGO_NET_OFFLINE=true
-mkdir -p .build evidence
-python3 stage/stage.py /repo .build/stage/repo >/dev/null
+export CARGO_NET_OFFLINE=true CARGO_TERM_COLOR=never
+mkdir -p .build/gen evidence
 cp /repo/Cargo.lock replay/Cargo.lock
-(cd replay && cargo build --offline --target-dir ../.build/replay-target 2>&1 | tail -2 && cargo build --release --offline --target-dir ../.build/replay-target 2>&1 | tail -2)
+(cd replay && cargo build --offline --target-dir ../.build/replay-target 2>&1 | tail -1 && cargo build --release --offline --target-dir ../.build/replay-target 2>&1 | tail -1)
+.build/replay-target/debug/vfixtures > .build/gen/fixtures.rs
+python3 stage/stage.py /repo .build/stage/repo >/dev/null
 cp /repo/Cargo.lock kani/Cargo.lock
-(cd kani && cargo kani -Z stubbing -Z unstable-options --only-codegen --harness scenarios::c07_twin --exact --target-dir ../.build/target-base 2>&1 | tail -2)
+(cd kani && cargo kani -Z stubbing -Z unstable-options --only-codegen --harness scenarios::c07_twin --exact --target-dir ../.build/target-base 2>&1 | tail -1)
 echo setup done
